@@ -437,6 +437,30 @@ def run_c04(ctx, rng, job):
                     ctx.violation('lookup-wrong-after-rebuild', {'registry': li, 'rebuilt': rb, 'required': nm(lreq), 'provided': nm(lprov),
                                                                  'name': lname, 'got': repr(got) if got is not dflt else 'default',
                                                                  'expected_one_of': repr(exp)})
+        if rng.random() < 0.05 and asked:
+            # a registry gets a new lookup object while it is populated (what persistent registries do when their state
+            # is loaded: ``_createLookup()``, bases assigned again, ``changed``): the provided interfaces it knows of have to
+            # be worked out from what is registered, most general first, all over again
+            rl = rng.randrange(len(w.regs))
+            reg_ = w.regs[rl]
+            if hasattr(reg_, '_createLookup'):
+                ctx.op('reload-lookup-object', rl)
+                bases_ = reg_.__bases__
+                reg_._createLookup()
+                reg_.__bases__ = bases_
+                reg_._v_lookup.changed(reg_)
+                ctx.count('lookup_objects_recreated_on_populated_registries')
+                for (li, lreq, lprov, lname, before) in asked:
+                    exp, info = w.m_lookup(li, lreq, lprov, lname)
+                    dflt = object()
+                    got = w.regs[li].lookup(lreq, lprov, lname, dflt)
+                    ctx.ev()
+                    ok = (got is dflt) if exp == [None] else any(got is e for e in exp)
+                    if not ok:
+                        ctx.violation('lookup-wrong-after-lookup-object-recreated', {'registry': li, 'recreated': rl, 'required': nm(lreq),
+                                                                                    'provided': nm(lprov), 'name': lname,
+                                                                                    'got': repr(got) if got is not dflt else 'default',
+                                                                                    'expected_one_of': repr(exp)})
         if rng.random() < 0.25 and asked:
             # "all interface/class hierarchies": the hierarchy of the looked-up specifications changes between two
             # lookups of the same key (class declaration, object declaration, re-basing of a required interface);
@@ -839,8 +863,22 @@ def run_c08(ctx, rng, job):
         for rlabel, order in rounds:
           if rlabel == 'r2':
             first = {}
-            kind = rng.choice(['registry', 'registry', 'class', 'object'])
-            if kind == 'registry' or not obs:
+            kind = rng.choice(['registry', 'registry', 'class', 'object', 'removal', 'removal'])
+            if kind == 'removal':
+                # an answer disappears: something registered or subscribed along the chain is taken away again
+                cands = [(rj_, k_) for rj_ in (w.chain(li) or [li]) for k_ in w.adapters[rj_] if len(k_[0]) == ar]
+                scands = [(rj_, e_) for rj_ in (w.chain(li) or [li]) for e_ in w.subs[rj_] if len(e_[0]) == ar]
+                if cands and (not scands or rng.random() < 0.6):
+                    rj_, k_ = rng.choice(cands)
+                    w.unregister(rj_, k_[0], k_[1], k_[2])
+                elif scands:
+                    rj_, e_ = rng.choice(scands)
+                    w.unsubscribe(rj_, e_[0], e_[1], e_[2] if rng.random() < 0.5 else None)
+                else:
+                    kind = 'registry'
+            if kind == 'removal':
+                pass
+            elif kind == 'registry' or not obs:
                 rj = rng.choice(w.chain(li) or [li])
                 val = w.newval()
                 if rng.random() < 0.6:
